@@ -310,7 +310,8 @@ def check_case(ctx, case):
         # output of the whole stream = outputs of the documents, in order
         o = rs[-1]
         exp = [drop_nulls(d[1]) for d in st.docs]
-        if not any(has_marker(x) for x in exp) and not any('$output' in json.dumps(x) for x in exp):
+        raw_marked = any(has_marker(d[1]) for d in st.docs)        # incl. directive keys with a null value: whether those count is not stated
+        if not raw_marked and not any('$output' in json.dumps(x) for x in exp):
             if o['err'] is not None:
                 return res.violate('isolate', 'stream output failed: %s' % o['err'], steps=steps)
             got = [json.loads(l) for l in out_bytes(o).decode().splitlines() if l.strip()]
@@ -348,7 +349,7 @@ def files_check(ctx, case, res, st):
             else:
                 return
     exp = [drop_nulls(d[1]) for d in st.docs]
-    judge_output = not any(has_marker(x) or '$output' in json.dumps(x) for x in exp)
+    judge_output = not any(has_marker(x[1]) or '$output' in json.dumps(x[1]) for x in st.docs)
     d = ctx.casedir()
     name = 'a'
     top = None
